@@ -1,5 +1,6 @@
 import StorageModel.Driver.Common
 import StorageModel.Query.Wire
+import StorageModel.Query.ObjectzTime
 /- model driver for C19: `run spec` reads case lines on stdin and prints one output line per case
    (spec = false: the engine models of boltz and objectz; spec = true: the spec's verdict). -/
 namespace StorageModel.Driver.C19
@@ -7,10 +8,36 @@ open StorageModel StorageModel.Driver StorageModel.Query StorageModel.Query.Wire
 
 def rotate (l : List α) (k : Nat) : List α := l.drop (k % (max l.length 1)) ++ l.take (k % (max l.length 1))
 
-def orderObjs (order : String) (rows : List Row) : List Row :=
+def orderObjs {α : Type} (order : String) (rows : List α) : List α :=
   if order == "rev" then rows.reverse
   else if order.startsWith "rot" then rotate rows (((order.drop 3).toString).toNat?.getD 0)
   else rows
+
+/-- representation of the `time.Time` values of the objects: `-` | `<id>:<rep>,…` with rep `z1` | `z2` | `z3` (three
+    `FixedZone` pointers) | `z4` (`time.Local`) | `m` (derived from `time.Now()` with `Add`: `time.Local` and a monotonic
+    reading — which `Add` keeps only while the wall seconds fit the 33-bit field counting from 1885) -/
+def parseReps (s : String) : List (Bytes × String) :=
+  if s == "-" then [] else (s.splitOn ",").filterMap fun e =>
+    match e.splitOn ":" with
+    | [id, rep] => some (asciiBytes id, rep)
+    | _ => none
+
+def monoWindow (ns : Int) : Bool :=
+  let sec := ns / 1000000000 + 2682288000
+  decide (0 ≤ sec) && decide (sec ≤ 8589934591)
+
+def repOfTok (rep : String) (ns : Int) : TimeRep :=
+  if rep == "z1" then { loc := 1 } else if rep == "z2" then { loc := 2 } else if rep == "z3" then { loc := 3 }
+  else if rep == "z4" then { loc := 4 }
+  -- the reading itself: the harness derives every such value from ONE clock reading, so readings and instants differ by a constant
+  else if rep == "m" then { loc := 4, mono := if monoWindow ns then some ns else none }
+  else {}
+
+def toTObj (reps : List (Bytes × String)) (r : Row) : TObj :=
+  let rep := (reps.lookup r.id).getD "-"
+  ⟨r, fun name => match fieldToDatetime (evalSym name r) with
+    | some ns => repOfTok rep ns
+    | none => {}⟩
 
 def renderObj (r : ObjOutcome (List Row × Int)) : String :=
   match r with
@@ -38,7 +65,7 @@ def objParses (c : Case) (variant : String) : Bool :=
 /-- the sorted-list model of the theorems and the llrb port must agree on every case -/
 def crossCheck (listOut treeOut : String) : String := if listOut == treeOut then listOut else s!"MODEL-SPLIT[{listOut}|{treeOut}]"
 
-def modelLine (c : Case) (order variant : String) : String :=
+def modelLine (c : Case) (order variant : String) (reps : List (Bytes × String) := []) : String :=
   match parsePaging c.skip c.limit with
   | .error _ => "bolt=err|obj=err|objc=err"
   | .ok paging =>
@@ -51,7 +78,13 @@ def modelLine (c : Case) (order variant : String) : String :=
     -- order `nil`: the store's iterator function returns nil
     let ost : ObjStore := ⟨objDeclOf variant, if order == "nil" then none else some (orderObjs order ((c.rows.getD []).map (·.row)))⟩
     let pf := Generated.objectzPaging
-    let objQ (q : Query) : String := crossCheck (renderObj (objQuery pf ost q)) (renderObj (objQueryT pf ost q))
+    -- with `time.Time` representations: the model over `TObj` (Query/ObjectzTime.lean)
+    let tobjs : Option (List TObj) := ost.objs.map fun rows => rows.map (toTObj reps)
+    let objQ (q : Query) : String :=
+      if reps.isEmpty then crossCheck (renderObj (objQuery pf ost q)) (renderObj (objQueryT pf ost q))
+      else crossCheck
+        (renderObj ((objQueryTP pf ost.symbols tobjs (fun s => evalFilter s q.filter) q.sort q.paging).mapRows (·.row)))
+        (renderObj ((objQueryTPT pf ost.symbols tobjs (fun s => evalFilter s q.filter) q.sort q.paging).mapRows (·.row)))
     let obj := objQ q
     let paging1 := (setPaging pf paging).1
     let r2 := objQ { q with paging := paging1 }
@@ -85,22 +118,24 @@ def specLine (c : Case) (variant : String) : String :=
     let ans := ansOf ((objDeclOf variant).map fun (n, t) => (n, ⟨t, false⟩)) c.sort
     s!"bolt={bolt}|obj={ans}|objc={ans}/{ans}/{state}"
 
-def parseLine (line : String) : Option (Case × String × String) :=
+def parseLine (line : String) : Option (Case × String × String × List (Bytes × String)) :=
   match splitSp line with
+  | ["o", rows, filter, sort, skip, limit, order, variant, reps] =>
+    (parseCase [rows, filter, sort, skip, limit, "-", "-"]).map fun c => (c, order, variant, parseReps reps)
   | ["o", rows, filter, sort, skip, limit, order] =>
-    (parseCase [rows, filter, sort, skip, limit, "-", "-"]).map fun c => (c, order, "full")
+    (parseCase [rows, filter, sort, skip, limit, "-", "-"]).map fun c => (c, order, "full", [])
   | ["o", rows, filter, sort, skip, limit, order, variant] =>
-    (parseCase [rows, filter, sort, skip, limit, "-", "-"]).map fun c => (c, order, variant)
+    (parseCase [rows, filter, sort, skip, limit, "-", "-"]).map fun c => (c, order, variant, [])
   | _ => none
 
 def step (line : String) : String :=
   match parseLine line with
-  | some (c, order, variant) => modelLine c order variant
+  | some (c, order, variant, reps) => modelLine c order variant reps
   | none => "bad-case"
 
 def specStep (line : String) : String :=
   match parseLine line with
-  | some (c, _, variant) => specLine c variant
+  | some (c, _, variant, _) => specLine c variant
   | none => "bad-case"
 
 def run (spec : Bool) : IO Unit := forEachLine (if spec then specStep else step)
